@@ -1316,3 +1316,7 @@ impl RoomAuthorisations {
         result
     }
 }
+
+#[cfg(discret_verif)]
+#[path = "/verif/hooks/authorisation_service.rs"]
+mod verif_hook;
